@@ -523,6 +523,7 @@ fn gen_value(rng: &mut Rng, shape: u8, i: usize, n: usize) -> f64 {
             let s = if rng.chance(1, 2) { -1.0 } else { 1.0 };      // opposite signs near f64::MAX
             s * (1.5e308 + rng.f64() * 0.2e308)
         }
+        10 => 1e308 + (i as f64) * 3e304 * (1.0 + rng.f64()),      // one sign, products with weights overflow
         8 => [0.1, 0.3, 0.7, 1.1, -2.3][rng.below(5) as usize],   // heavy duplicates of non-dyadic values
         9 => 0.1,                                                 // constant, non-dyadic
         _ => 42.0,                                                // all equal
@@ -744,7 +745,7 @@ pub fn record(args: &Args) {
     let ks: Vec<u16> = if thorough { vec![10, 11, 20, 29, 30, 31, 50, 100, 200, 350, 500] } else { vec![10, 29, 30, 100, 200, 500] };
     for _ in 0..reps {
         for &k in &ks {
-            for shape in 0..10u8 {
+            for shape in 0..11u8 {
                 let n = if thorough { *rng.pick(&[1usize, 2, 5, 100, 3000, 40000, 200000]) } else { *rng.pick(&[1usize, 2, 3, 50, 1000, 12000]) };
                 let merges = if n > 50000 { 1 } else { rng.below(5) as usize };
                 scenario(&mut out, &mut rng, k, shape, n, merges);
